@@ -17,7 +17,7 @@ for f in sorted(glob.glob('/verif/seeded/*/meta.json')):
     missed_before = bool(hist) if isinstance(hist, str) else any(
         not v.get('caught') for h in hist for c, v in h['checks'].items()
         if c == m['property'] or len(h['checks']) == 1)
-    if len(sys.argv) > 1 and str((m['n'] - 1) // 3 + 1) != sys.argv[1]:
+    if len(sys.argv) > 1 and str(m.get('round', (m['n'] - 1) // 3 + 1)) != sys.argv[1]:
         continue
     rows.append(f'| {sid} | {first} | {"yes" if m.get("confirmed") else "NO"} | {caught} | '
                 f'{"missed, check extended" if missed_before else "caught"} | {keys[:140]} |')
